@@ -148,6 +148,40 @@ func c09(c *Ctx) {
 			r.Check(op.domain == "echoed", "R09.K", key, site, "looked up under a key of domain '"+op.domain+"' (must be an id the server echoes: req_msg_id / bad_msg_id) — the msg_id of a received message never equals a request id, so the entry is never found")
 		}
 	}
+	// ---- R09.O: register before writing ----------------------------------------------------------
+	r.Rule("R09.O", "the waiter (and its decoder hints) is registered before the request is written: an answer processed right after the write must find it", 2)
+	if sp := c.fn("R09.O", load.RootMod, "*MTProto", "sendPacket"); sp != nil {
+		var write ssa.Instruction
+		for _, cs := range an.Calls(sp) {
+			if strings.HasSuffix(cs.Name, "transport.Transport).WriteMsg") {
+				write = cs.Instr
+			}
+		}
+		if write == nil {
+			r.Undecide("R09.O", "register-before-write", c.pos(sp.Pos()), "WriteMsg call not found in sendPacket")
+		} else {
+			for _, tbl := range []string{"SyncIntObjectChan", "SyncIntReflectTypes"} {
+				adds := an.CallsNamed(sp, "(*"+load.UtilsPkg+"."+tbl+").Add")
+				if len(adds) == 0 {
+					r.Violate("R09.O", "register-before-write:"+tbl, c.pos(sp.Pos()), "sendPacket does not register in "+tbl)
+					continue
+				}
+				ok := true
+				why := ""
+				for _, a := range adds {
+					// the registration must be able to precede the write and must never follow it
+					if !an.InstrDominates(a.Instr, write) && !precedesOnSomePath(a.Instr, write) {
+						ok, why = false, "the registration at "+c.pos(a.Pos())+" cannot precede the write at "+c.pos(write.Pos())
+					}
+					if follows(write, a.Instr) {
+						ok, why = false, "the registration at "+c.pos(a.Pos())+" happens after the write at "+c.pos(write.Pos())+": an answer that is processed in between finds no waiter, is dropped with 'not found', and the caller blocks for ever"
+					}
+				}
+				r.Check(ok, "R09.O", "register-before-write:"+tbl, c.pos(adds[0].Pos()), why)
+			}
+		}
+	}
+
 	// ---- R09.D ----------------------------------------------------------------------------------
 	if w := c.fn("R09.D", load.RootMod, "*MTProto", "writeRPCResponse"); w != nil {
 		var send *ssa.Send
@@ -318,4 +352,30 @@ func c11(c *Ctx) {
 		}
 		r.Check(ok, "R11.R", "waiter-retries", c.pos(mk.Pos()), "on *errorSessionConfigsChanged makeRequest(data, …) is called again with the same request")
 	}
+}
+
+// follows: b can execute after a.
+func follows(a, b ssa.Instruction) bool {
+	if a.Block() == b.Block() {
+		for _, in := range a.Block().Instrs {
+			if in == a {
+				return true
+			}
+			if in == b {
+				return false
+			}
+		}
+	}
+	return reachesBlockStrict(a.Block(), b.Block())
+}
+
+func precedesOnSomePath(a, b ssa.Instruction) bool { return follows(a, b) }
+
+func reachesBlockStrict(from, to *ssa.BasicBlock) bool {
+	for _, s := range from.Succs {
+		if reachesBlock(s, to, map[*ssa.BasicBlock]bool{}) {
+			return true
+		}
+	}
+	return false
 }
